@@ -247,6 +247,7 @@ def stepInfo (op : Op) (accepted : Bool) : StepInfo :=
   | .mwithdraw _ admin _ _ => { kind := .mwithdraw, signers := [admin], accepted }
   | .msend frm _ => { kind := .send, signers := [frm], accepted }          -- bank MsgMultiSend: the one input signs
   | .mtransfer admin _ _ _ => { kind := .mwithdraw, signers := [admin], accepted }  -- marker MsgTransfer: the administrator signs
+  | .mkadd .. => { kind := .env, signers := [], accepted }                     -- marker MsgAdd(FinalizeActivate)Marker on a scope denom: may move or mint nothing
   | .fund .. => { kind := .env, signers := [], accepted }
   | .grant .. => { kind := .env, signers := [], accepted }
   | .revoke .. => { kind := .env, signers := [], accepted }
